@@ -1831,6 +1831,7 @@ func shrink(cfg *Config, v viol) *Config {
 	best := cloneConfig(cfg)
 	best.Msgs = []Msg{*v.msg}
 	fp := v.fp()
+	budget := 600
 	reproduces := func(c *Config) bool {
 		for side := 0; side < 2; side++ { // a duplicate route name makes eRPC exit
 			seen := map[string]bool{}
@@ -1846,6 +1847,7 @@ func shrink(cfg *Config, v viol) *Config {
 		var st caseStats
 		vs, inc := runConfig(cloneConfig(c), &st, false)
 		if inc != "" {
+			budget = 0 // a run that ends in a watchdog costs seconds: keep what has been reached
 			return false
 		}
 		for _, w := range vs {
@@ -1858,7 +1860,6 @@ func shrink(cfg *Config, v viol) *Config {
 	if !reproduces(best) {
 		return nil
 	}
-	budget := 1200
 	for progress := true; progress && budget > 0; {
 		progress = false
 		var cands []func(c *Config) bool
